@@ -85,6 +85,11 @@ def list_schemes() -> list[str]:
     return [s.value for s in Scheme]
 
 
+def _state_index(ode: ODE) -> dict[str, int]:
+    """Slot of each state in the arrays of the generated code (as in ``state_index``)."""
+    return {s.name: i for i, s in enumerate(ode.sorted_states())}
+
+
 def fraction_numerator_is_nonzero(expr):
     """Perform a very cheap check to detect if a fraction is definitely non-zero."""
 
@@ -158,18 +163,16 @@ def explicit_euler(
     logger.debug("Generating explicit Euler scheme")
     eqs = []
     values = sympy.IndexedBase(name, shape=(len(ode.state_derivatives),))
-    i = 0
+    state_index = _state_index(ode)
     for x in ode.sorted_assignments(remove_unused=remove_unused):
         eqs.append(printer(x.symbol, x.expr, use_variable_prefix=True))
         if isinstance(x, atoms.StateDerivative):
             eqs.append(
                 printer(
-                    values[i],
+                    values[state_index[x.state.name]],
                     x.state.symbol + dt * x.symbol,
                 )
             )
-
-            i += 1
 
     return eqs
 
@@ -229,13 +232,14 @@ def hybrid_rush_larsen(
     found_stiff_states_set = set()
     eqs = []
     values = sympy.IndexedBase(name, shape=(len(ode.state_derivatives),))
-    i = 0
+    state_index = _state_index(ode)
     for x in ode.sorted_assignments(remove_unused=remove_unused):
         eqs.append(printer(x.symbol, x.expr, use_variable_prefix=True))
 
         if not isinstance(x, atoms.StateDerivative):
             continue
 
+        i = state_index[x.state.name]
         expr_diff = x.expr.diff(x.state.symbol)
         state_is_stiff = x.state.name in stiff_states_set
 
@@ -247,7 +251,6 @@ def hybrid_rush_larsen(
                     x.state.symbol + dt * x.symbol,
                 )
             )
-            i += 1
             continue
 
         found_stiff_states_set.add(x.state.name)
@@ -273,7 +276,6 @@ def hybrid_rush_larsen(
                 x.state.symbol + RL_term,
             )
         )
-        i += 1
     logger.debug(
         "The following states where marked as stiff but not found in the ODE:",
         extra=stiff_states_set.difference(found_stiff_states_set),
@@ -324,13 +326,14 @@ def generalized_rush_larsen(
     logger.debug("Generating generalized Rush-Larsen scheme")
     eqs = []
     values = sympy.IndexedBase(name, shape=(len(ode.state_derivatives),))
-    i = 0
+    state_index = _state_index(ode)
     for x in ode.sorted_assignments(remove_unused=remove_unused):
         eqs.append(printer(x.symbol, x.expr, use_variable_prefix=True))
 
         if not isinstance(x, atoms.StateDerivative):
             continue
 
+        i = state_index[x.state.name]
         expr_diff = x.expr.diff(x.state.symbol)
 
         if expr_diff.is_zero:
@@ -341,7 +344,6 @@ def generalized_rush_larsen(
                     x.state.symbol + dt * x.symbol,
                 )
             )
-            i += 1
             continue
 
         linearized_name = x.name + "_linearized"
@@ -365,5 +367,4 @@ def generalized_rush_larsen(
                 x.state.symbol + RL_term,
             )
         )
-        i += 1
     return eqs
